@@ -29,6 +29,8 @@ def gen_unit(unit):
         g = sg.fam_fork_templates(rng, big=unit.get("big", False))
     elif f == "hostile":
         g = sg.fam_hostile(rng, big=unit.get("big", False))
+    elif f == "recur_far":
+        g = sg.fam_recur_far(rng, pool=unit.get("pool", 70000), fork=not COINS[unit["coin"]].bitcoin_rules)
     elif f == "explicit":
         g = [(unit.get("label", "explicit"), bytes.fromhex(h)) for h in unit["scripts"]]
     else:
@@ -74,7 +76,7 @@ def unit_case(unit):
     coin = COINS[unit["coin"]]
     binary = core.build(unit.get("profile", "release"))
     scripts = gen_unit(unit)
-    res = core.eval_scripts(binary, [(coin.version_byte, s) for _, s in scripts], jobs=1)
+    res = core.eval_scripts(binary, [(coin.version_byte, s) for _, s in scripts], jobs=1, chunk=(10**9 if unit.get("one_process") else 20000))
     v, shapes, counters = [], set(), {}
     pid = unit.get("pid", "")
     for (fam, s), r in zip(scripts, res):
@@ -90,7 +92,9 @@ def unit_case(unit):
         if r[1]:
             counters["addresses_decoded"] = counters.get("addresses_decoded", 0) + 1
     out = {"evaluations": len(scripts), "violations": v, "shapes": sorted(shapes), "counters": counters}
-    if v:
+    if v and unit.get("one_process"):
+        out["spec"] = {k: val for k, val in unit.items() if k != "work"}     # the verdict depends on the whole history: replay all of it
+    elif v:
         # replay spec: just the failing scripts
         bads = [s.hex() for (fam, s), r in zip(scripts, res) if judge(s, coin, r, unit.get("totality_only", False))][:20]
         out["spec"] = {"case": "unit", "family": "explicit", "scripts": bads, "coin": coin.name, "profile": unit.get("profile", "release"),
